@@ -74,6 +74,12 @@ def requests():
     R["3 cats m.m.cm"] = (lambda: Quantity.CreateDerived(_od(("length", "m", 1), ("depth", "m", 1), ("height", "cm", 1))),
                           ((("length", ("m", 1)), ("depth", ("m", 1)), ("height", ("cm", 1))), ""))
     R["1/s list"] = (lambda: ObtainQuantity([("s", -1)], ["time"]), ((("time", ("s", -1)),), ""))
+    # the same entries in another ORDER are another composing map: a different quantity (different strings, unequal)
+    R["m.s dict"] = (lambda: ObtainQuantity(_od(("length", "m", 1), ("time", "s", 1))), ((("length", ("m", 1)), ("time", ("s", 1))), ""))
+    R["s.m dict"] = (lambda: ObtainQuantity(_od(("time", "s", 1), ("length", "m", 1))), ((("time", ("s", 1)), ("length", ("m", 1))), ""))
+    R["s*m op"] = (lambda: (Scalar(1.0, "s") * Scalar(1.0, "m")).GetQuantity(), ((("time", ("s", 1)), ("length", ("m", 1))), ""))
+    R["3 cats cm.m.m reordered"] = (lambda: Quantity.CreateDerived(_od(("depth", "cm", 1), ("length", "m", 1), ("height", "m", 1))),
+                                    ((("depth", ("cm", 1)), ("length", ("m", 1)), ("height", ("m", 1))), ""))
     return R
 
 
@@ -98,6 +104,15 @@ def items(tier, seed):
         for _ in range(6000):
             a, b = rng.choice(pairs)
             out.append({"a": a, "b": b, "ops": [rng.choice(OPS), rng.choice(OPS)]})
+    # always in: the mutator / re-initialisation attempt on every request, and the order-variant requests against each other under several operations
+    for a in names:
+        out.append({"a": a, "b": names[(names.index(a) + 7) % len(names)], "ops": ["readonly"]})
+    variants = ["m.s dict", "s.m dict", "s*m op", "3 cats m.cm.m", "3 cats cm.m.m reordered", "m/s derived", "m/s list"]
+    for a in variants:
+        for b in variants:
+            if a != b:
+                for o in ("scalar_mul", "pickle", "makecopy", "hand_out_maps"):
+                    out.append({"a": a, "b": b, "ops": [o]})
     out.append({"a": "m", "b": "s", "ops": ["scalar_mul"], "canary": True})
     rng.shuffle(out)
     return out
@@ -176,6 +191,13 @@ def do_op(op, qa, qb, V):
             same = all(snap_quantity(q) == s0 for (q, _), s0 in zip(made, snaps)) and all(a is q for a, (q, _) in zip(again, made))
             return "spec-ok" if same else "spec-aliased"
         if op == "readonly":
+            # a second initialisation of a configured quantity (any argument form) leaves it as it is (the audit after this step compares every cached quantity)
+            for q_ in (qa, qb):
+                for args in (("length", "km"), (_od(("mass", "kg", 2)), None, "again"), ("time", "h", "cap")):
+                    try:
+                        q_.__init__(*args)
+                    except Exception:  # noqa - refusing is fine, changing is not
+                        pass
             # the mutator refuses every caption: a new one, the one the quantity already has, the empty one, None
             for cap in ("zzz", qa.GetUnknownCaption(), "", None, qb.GetUnknownCaption()):
                 for q_ in (qa, qb):
